@@ -77,7 +77,9 @@ CLAIMS = {
                 "search on the filter; default budget = count x trees x oversampling with saturating arithmetic; by_item of an absent id "
                 "is none and by_item = by_vector of the stored vector. Real crate: a lattice of counts (0..usize::MAX), budgets, "
                 "oversamplings and filters; answers compared bit-for-bit with the model and checked by the well-formedness, exactness "
-                "and monotonicity predicates.",
+                "and monotonicity predicates. The same statements are proved against the HISTORY (C03_history_*): results are keys of the "
+                "abstract item map inside the filter, with the definitional distance on the vector as written; unknown, deleted and "
+                "never-written ids alike yield none.",
         "note": COMMON_NOTE + " by_item = by_vector is proved for all seven metrics (C03Bq for the quantised ones).",
         "technique": "Lean 4 theorems over the traversal model + query-lattice differential with well-formedness/monotonicity predicates",
     },
@@ -148,7 +150,8 @@ CLAIMS = {
                 "requesters, in any arrangement, yields a valid forest (C13_build_every_schedule) - a thread schedule changes only which "
                 "fresh ids each task receives. The real ConcurrentNodeIds runs on "
                 "instrumented atomics under a controlled scheduler: >10^5 exhaustively/systematically explored schedules must match the "
-                "model step for step; multi-threaded builds (1-16 threads) are checked by the forest predicates.",
+                "model step for step; multi-threaded builds (1-16 threads, threads made to rendezvous at every instrumented atomic "
+                "operation) are checked by the forest predicates.",
         "note": COMMON_NOTE + " Each atomic cell is sequentially consistent in the model; weak-memory effects beyond per-operation atomicity are not modelled. That the rayon tasks of a build share nothing but the id generator (immutable snapshot, private scratch file, writes applied by the single writer) is read off the code and checked by the forest predicates on 2-16 thread builds, not proved.",
         "technique": "Lean 4 invariant proof over all schedules + schedule-controlled replay of the real generator",
     },
@@ -156,7 +159,9 @@ CLAIMS = {
         "text": "target_n_trees is proved to return the requested count, and at least 1 when automatic, for all inputs (binary64 hysteresis "
                 "modelled exactly in soft-float); root count = target and bucket capacity are part of the build theorems (C01 chain) and "
                 "are evaluated on every implementation dump: trees = requested, >= 1 automatic, exactly 1 / 0 for single-bucket / empty "
-                "indexes, and no bucket above a constant capacity.",
+                "indexes, and no bucket above a constant capacity. Over histories (C15_history): what Reader::open reports after any history "
+                "and a build - the requested count whether the forest had to grow or shrink - and every query with count >= 1 and any "
+                "budget >= 1 on a non-empty index returns a result (C15_history_search_nonempty).",
         "note": COMMON_NOTE,
         "technique": "Lean 4 arithmetic theorems + forest theorems + per-dump predicates on the real crate around the capacity boundary",
     },
